@@ -1,9 +1,84 @@
-import QP.Proofs.C03Basic
-/-! Property theorems for C03 (declared parameters suffice, declared constraints are enforced). -/
+import QP.Proofs.C03Internal
+/-!
+# Property theorems for C03 — declared parameters suffice, declared constraints are enforced
+
+All theorems are about the shared pulse-template model `QP.PT.createProgram` (tied to the real
+`PulseTemplate.create_program` by the correspondence in `harness/c03.py`) and hold for **every** template
+tree (structural induction over all thirteen constructors, no size bound).  Hypotheses:
+
+* `WF pt` — every `MappingPulseTemplate` maps all parameters of its body (established by its constructor;
+  checked on every generated tree by the harness through `wfB`),
+* `NoReservedT pt` — the reserved time variable `t` is not used outside a function template's formula
+  (otherwise the tree is in the class of the open finding PF-14).
+-/
 namespace QP.Props.C03
 open QP QP.PT QP.C03
 
-/-- the judge over an empty enumeration accepts -/
-theorem consOutcome_nil : consOutcome [] = .ok () := rfl
+/-- **Extra names never matter** (`_create_program` level): scopes that answer equally on the declared names
+give the same result. -/
+theorem compile_frame (pt : PT) (σ σ' : Scope) (mm : List (MName × Option MName)) (cm : List (Chan × Option Chan))
+    (trafo : Chain) (single : List String) (hW : WF pt) (hT : NoReservedT pt) (hR : Rel (parameterNames pt) σ σ') :
+    compile pt ⟨σ, mm, cm, trafo, single⟩ = compile pt ⟨σ', mm, cm, trafo, single⟩ := by
+  unfold compile
+  exact wrapSingle_congr (fun T => int_congr pt σ σ' mm cm T single hW hT hR)
+
+/-- **Extra names never matter**: two parameter dictionaries that agree on `parameterNames pt` (in particular a
+dictionary and the same dictionary with values for any other names added) instantiate to the same result —
+the same program or the same error. -/
+theorem frame (pt : PT) (kv kv' : List (String × Rat)) (mm : Option (List (MName × Option MName)))
+    (cmUser : List (Chan × Option Chan)) (single : List String) (hW : WF pt) (hT : NoReservedT pt)
+    (h : ∀ n ∈ parameterNames pt, kv.lookup n = kv'.lookup n) :
+    createProgram pt kv mm cmUser single = createProgram pt kv' mm cmUser single := by
+  unfold createProgram topCtx
+  dsimp only
+  split
+  · rfl
+  · simp only [ok_bind]
+    rw [compile_frame pt (.dict kv) (.dict kv') _ _ [] single hW hT (rel_dict h)]
+
+/-- the `frame` hypothesis is satisfiable with genuinely different dictionaries -/
+example : ∀ n ∈ parameterNames (.const none (.var "d") [("A", .var "v")] []),
+    ([("d", 1), ("v", 2)] : List (String × Rat)).lookup n = ([("x", 5), ("v", 2), ("d", 1), ("i", 0)] : List (String × Rat)).lookup n := by
+  decide
+
+/-- **Declared names suffice** (`_create_program` level) -/
+theorem compile_sufficient (pt : PT) (kv : List (String × Rat)) (mm : List (MName × Option MName))
+    (cm : List (Chan × Option Chan)) (trafo : Chain) (single : List String) (hW : WF pt) (hT : NoReservedT pt)
+    (h : ∀ n ∈ parameterNames pt, n ∈ kv.map (·.1)) :
+    compile pt ⟨.dict kv, mm, cm, trafo, single⟩ ≠ .error .parameterMissing ∧
+    compile pt ⟨.dict kv, mm, cm, trafo, single⟩ ≠ .error .exprVarMissing := by
+  have hG : Good (fun e => e = .parameterMissing ∨ e = .exprVarMissing) (parameterNames pt) (.dict kv) := good_dict h
+  have hcv : ¬ ((Err.constraintViolation = .parameterMissing) ∨ (Err.constraintViolation = .exprVarMissing)) := by simp
+  have hA : Avoid (fun e => e = .parameterMissing ∨ e = .exprVarMissing) (compile pt ⟨.dict kv, mm, cm, trafo, single⟩) := by
+    unfold compile
+    exact wrapSingle_avoid subSc_miss (int_avoid eclass_miss hcv pt _ mm cm trafo single hW hT hG)
+      (int_avoid eclass_miss hcv pt _ mm cm [] single hW hT hG)
+  exact ⟨fun he => avoid_iff.mp hA _ he (Or.inl rfl), fun he => avoid_iff.mp hA _ he (Or.inr rfl)⟩
+
+/-- **Declared names suffice**: if the dictionary has a value for every name in `parameterNames pt`,
+instantiation never fails for want of a parameter (neither `ParameterNotProvidedException` nor
+`ExpressionVariableMissingException`). -/
+theorem sufficient (pt : PT) (kv : List (String × Rat)) (mm : Option (List (MName × Option MName)))
+    (cmUser : List (Chan × Option Chan)) (single : List String) (hW : WF pt) (hT : NoReservedT pt)
+    (h : ∀ n ∈ parameterNames pt, n ∈ kv.map (·.1)) :
+    createProgram pt kv mm cmUser single ≠ .error .parameterMissing ∧
+    createProgram pt kv mm cmUser single ≠ .error .exprVarMissing := by
+  unfold createProgram topCtx
+  dsimp only
+  split
+  · exact ⟨by simp, by simp⟩
+  · simp only [ok_bind]
+    have := compile_sufficient pt kv
+      (match mm with | some m => m | none => (dedup pt.measurementNames).map (fun n => (n, some n)))
+      (cmUser.foldl (fun d (k, v) => cmUpdate d k v) (pt.definedChannels.map (fun c => (c, some c)))) [] single hW hT h
+    constructor
+    · intro he
+      rcases bind_err.mp he with he | ⟨_, _, he⟩
+      · exact this.1 he
+      · cases he
+    · intro he
+      rcases bind_err.mp he with he | ⟨_, _, he⟩
+      · exact this.2 he
+      · cases he
 
 end QP.Props.C03
